@@ -207,6 +207,14 @@ class Rewriter(ast.NodeTransformer):
         )
 
     # -- expressions ----------------------------------------------------------
+    class_name = None
+
+    def visit_Attribute(self, node):
+        self.generic_visit(node)
+        if self.class_name and node.attr.startswith("__") and not node.attr.endswith("__"):
+            node.attr = f"_{self.class_name}{node.attr}"
+        return node
+
     def visit_Name(self, node):
         if isinstance(node.ctx, ast.Load) and node.id in BUILTINS and node.id not in self.local_names:
             return ast.copy_location(
@@ -506,6 +514,10 @@ def load(module: str, qualname: str, extra_globals: dict | None = None, *, vc=No
     rw = Rewriter(info, local_names)
     if fn.args.args:
         rw.self_name = fn.args.args[0].arg
+    if "." in qualname:
+        # private names (self.__x) are mangled by the compiler inside a class body; the extracted function is compiled
+        # outside of it, so the mangling is applied here
+        rw.class_name = qualname.split(".")[-2].lstrip("_")
     fn = rw.visit(fn)
     fn.decorator_list = []
     fn.body.append(ast.Expr(value=rw.vc("ret", ast.Constant(value=None), rw.locals_call())))
